@@ -307,6 +307,7 @@ func (workingMem *WorkingMemory) AddExpression(exp *Expression) *Expression {
 	}
 	AstLog.Tracef("%s : Added Expression Snapshot : %s", workingMem.ID, snapshot)
 	workingMem.expressionSnapshotMap[snapshot] = exp
+	exp.snapshot = snapshot
 
 	return exp
 }
@@ -322,6 +323,7 @@ func (workingMem *WorkingMemory) AddExpressionAtom(exp *ExpressionAtom) *Express
 	}
 	AstLog.Tracef("%s : Added ExpressionAtom Snapshot : %s", workingMem.ID, snapshot)
 	workingMem.expressionAtomSnapshotMap[snapshot] = exp
+	exp.snapshot = snapshot
 
 	return exp
 }
@@ -337,6 +339,7 @@ func (workingMem *WorkingMemory) AddVariable(vari *Variable) *Variable {
 	}
 	AstLog.Tracef("%s : Added Variable Snapshot : %s", workingMem.ID, snapshot)
 	workingMem.variableSnapshotMap[snapshot] = vari
+	vari.snapshot = snapshot
 
 	return vari
 }
